@@ -144,6 +144,12 @@ def compare(case, impl, model):
         disc = []
         if "crash" in base:
             return ["metamorphic base run crashed: " + base["crash"]]
+        de = base.get("decode_exact")
+        if isinstance(de, dict) and any(v != 0 for v in de.values()):
+            disc.append(f"after decode_symbol_ids() and decode_symbol_ids(use_shorten_name=False) the decoded columns differ from the table's strings "
+                        f"in (rank: rows) {de}")
+        elif isinstance(de, str):
+            disc.append(f"decode_symbol_ids twice: {de}")
         if base.get("bijection") != [True, True, True]:
             disc.append(f"symbol table of the loaded trace is not a bijection: {base.get('bijection')}")
         # rows decode to the file's own strings
